@@ -17,12 +17,16 @@ import (
 func Harness_C11_queue() {
 	n := zzverif.Param("n", 6)
 	gg := zzBuildGraphNoEdges(n)
-	q, err := NewCommitsQueue(gg.db, [][]byte{gg.sums[0]})
+	// initial: how many commits the queue is created from (the ref tips of a walk); the
+	// others are inserted one by one
+	k0 := zzverif.Param("initial", 1)
+	q, err := NewCommitsQueue(gg.db, gg.sums[:k0])
 	zzverif.Assert("queue-created", err == nil)
 	if err != nil {
 		return
 	}
-	for i := 1; i < n; i++ {
+	zzverif.Assert("queue-holds-the-initial-commits", q.Len() == k0)
+	for i := k0; i < n; i++ {
 		zzverif.Assert("insert-no-error", q.Insert(gg.sums[i]) == nil)
 		if zzverif.Param("reinsert", 0) == 1 {
 			zzverif.Assert("reinsert-no-error", q.Insert(gg.sums[i/2]) == nil)
